@@ -186,3 +186,4 @@ example : (calLoop fComp.faultFree 1 fState).1.core.params = [5, 15] := by decid
 end Example
 
 end BlackIt.Calibrator
+
